@@ -37,6 +37,24 @@ def matrix(ctx):
              adaptive=True, dt_max=0.125, solve_time=1.0),
         dict(label="history/ring/xi=2-then-xi=1-twin/screening/warm-up-with-screening", func="stationary_history", dev="ring", twin="xi", order="BA",
              screening=True, warm_screening=True, adaptive=False, solve_time=0.4),
+        # how "epsilon = 1 everywhere on the film" is expressed: constant / per-site callable (also argument-reducing ones) / vectorized /
+        # time-dependent (keyword t), with values != 1 OFF the film, for coherence lengths 0.5, 1, 2 and two mesh sizes (new devices)
+        dict(label="eps=per-site-norm/film/xi=0.5/mel=0.5", func="stationary_eps_run", eps_form="per-site-norm", dev="film", xi=0.5, mel=0.5,
+             adaptive=True, dt_max=0.125, solve_time=1.0),
+        dict(label="eps=per-site-sum/bar/xi=1/mel=0.8/unpinned", func="stationary_eps_run", eps_form="per-site-sum", dev="bar", xi=1.0, mel=0.8,
+             adaptive=False, solve_time=0.3),
+        dict(label="eps=per-site/ring/xi=2/mel=0.8", func="stationary_eps_run", eps_form="per-site", dev="ring", xi=2.0, mel=0.8, adaptive=True,
+             dt_max=0.125, solve_time=1.0),
+        dict(label="eps=vectorized/tee/xi=0.5/mel=0.8/screening", func="stationary_eps_run", eps_form="vectorized", dev="tee", xi=0.5, mel=0.8,
+             adaptive=False, screening=True, solve_time=0.2),
+        dict(label="eps=time-dependent/film/xi=0.5/mel=0.8", func="stationary_eps_run", eps_form="time-dependent", dev="film", xi=0.5, mel=0.8,
+             adaptive=True, dt_max=0.125, solve_time=1.0),
+        dict(label="eps=time-dependent/ring/xi=2/mel=0.5", func="stationary_eps_run", eps_form="time-dependent", dev="ring", xi=2.0, mel=0.5,
+             adaptive=False, solve_time=0.3),
+        dict(label="eps=time-dependent-vectorized/bar/xi=0.5/mel=0.5/unpinned", func="stationary_eps_run", eps_form="time-dependent-vectorized", dev="bar",
+             xi=0.5, mel=0.5, adaptive=True, dt_max=0.125, solve_time=1.0),
+        dict(label="eps=constant/ring/xi=2/mel=0.5", func="stationary_eps_run", eps_form="constant", dev="ring", xi=2.0, mel=0.5, adaptive=False,
+             solve_time=0.3),
         # small rounding seed (small fixed step, low gamma): bit-exactness is demanded on these whatever the known finding says
         dict(label="bar/gamma=0/fixed-step/dt=2^-9", dev="bar", smooth=0, gamma=0.0, adaptive=False, dt=2.0 ** -9, solve_time=0.06),
         dict(label="barhole/smoothed/gamma=1/fixed-step/dt=2^-10", dev="barhole", smooth=30, gamma=1.0, adaptive=False, dt=2.0 ** -10, solve_time=0.03),
@@ -47,6 +65,13 @@ def matrix(ctx):
              dt=2.0 ** -11, solve_time=0.012),
     ]
     if not ctx.quick:
+        for form in ro.EPS_FORMS:
+            for xi in (0.5, 1.0, 2.0):
+                for mel in (0.8, 0.5):
+                    for dev in (("film", "ring") if mel == 0.8 else ("bar", "ring")):
+                        runs.append(dict(label=f"eps={form}/{dev}/xi={xi}/mel={mel}", func="stationary_eps_run", eps_form=form, dev=dev, xi=xi, mel=mel,
+                                         adaptive=(xi != 1.0), dt_max=0.125, screening=(form == "vectorized" and mel == 0.8),
+                                         solve_time=(1.0 if xi != 1.0 else 0.3)))
         for dev in ("film", "bar", "tee", "cross", "ring"):
             for twin in ("smooth", "xi"):
                 for order in ("AB", "BA"):
@@ -83,6 +108,18 @@ def run(ctx):
     ctx.cov["twin_mesh_histories"] = {"planned": sum(1 for a in runs if a.get("func") == "stationary_history"), "skipped_not_twins": skipped}
     if ctx.cov["twin_mesh_histories"]["planned"] - len(skipped) < 2:
         raise core.MachineryFailure(f"C17: fewer than 2 twin-mesh histories could be built (skipped: {skipped})")
+    # vacuity guard of the epsilon-form dimension
+    ef = [t for t in traces if t.get("eps_form")]
+    forms = sorted({t["eps_form"] for t in ef})
+    ctx.cov["epsilon_forms"] = {"runs": len(ef), "forms": forms, "xi": sorted({t["xi"] for t in ef}), "mesh_sizes": sorted({t["mel"] for t in ef}),
+                                "argument_reducing_functions_that_discriminate": sum(1 for t in ef if t["eps_form"].startswith("per-site-") and t["discriminates"]),
+                                "time_dependent_functions_that_tell_length_units_from_mesh_units":
+                                    sum(1 for t in ef if t["eps_form"].startswith("time-dependent") and t["discriminates"])}
+    need = {"constant", "per-site", "vectorized", "time-dependent"}
+    if (not need <= set(forms) or not any(f.startswith("per-site-") for f in forms) or not {0.5, 1.0, 2.0} <= set(ctx.cov["epsilon_forms"]["xi"])
+            or len(ctx.cov["epsilon_forms"]["mesh_sizes"]) < 2 or ctx.cov["epsilon_forms"]["argument_reducing_functions_that_discriminate"] < 1
+            or ctx.cov["epsilon_forms"]["time_dependent_functions_that_tell_length_units_from_mesh_units"] < 2):
+        raise core.MachineryFailure(f"C17: the epsilon-form dimension is not covered: {ctx.cov['epsilon_forms']}")
     keep = [n for n, t in enumerate(traces) if not t.get("skipped")]
     runs, traces = [runs[n] for n in keep], [traces[n] for n in keep]
     for a, t in zip(runs, traces):
@@ -166,4 +203,10 @@ def run(ctx):
     ctx.cov["rule"] = ("one case = one undriven run of the real solver (psi = 1, mu = 0, no field, no current, epsilon = 1); every recorded frame is "
                        "checked for bitwise psi = 1, mu = 0, zero currents, zero induced potential, and the recorded step sizes for dt_init during "
                        "warm-up then dt_max; non-trivial = at least 5 steps")
+    ctx.assume("explored region: gamma in {0, 1, 2, 10}, u in {0.5, 1, 5.79}, runs of at most a few hundred steps (<= ~3 tau); the step is capped at the linear "
+               "stability limit of the explicit part for amplitude perturbations (dt_max <= u sqrt(1+gamma^2)/lambda_max), so that the presence of a spurious "
+               "source is observed, not its amplification.  Outside it (observed on the unmodified tree by a reviewer, not claimed here): gamma <= 1 with "
+               "dt_max = 0.1 destabilises the uniform state (explicit Euler), gamma >= 1000 loses precision (~2e-5), and a 20 tau barhole run at "
+               "dt_max = 0.05 accumulates 3e-10 -- StationaryToRounding (1e-9) is stated for the short runs of this matrix")
+    ctx.assume("epsilon forms: the callables return 1 at every film site (asserted by the harness at t = 0, 0.3, 5) and values != 1 off the film")
     ctx.assume("warm-up length window + 2 steps (docs: the rule applies when step > window) is part of RunObs.StepHistoryOK")
